@@ -84,6 +84,8 @@ def _binary(op, a, b):
     v, tag = X.binary(op, a, b)
     if v is None or isinstance(v, tuple):
         return UNSURE
+    if tag == 'concat:display:decimal-small':
+        return UNSURE  # listed scalar finding F7 (C02 owns it): excluded from the workbook-level oracles
     return v
 
 
@@ -260,8 +262,8 @@ def fn(env, name, args):
             return UNSURE
         if is_err(a):
             return a
-        d, _ = X.display(a)
-        if d is None:
+        d, dtag = X.display(a)
+        if d is None or dtag == 'display:decimal-small':
             return UNSURE
         if name == 'LEN':
             return float(len(d))
